@@ -26,12 +26,12 @@ PID = "C21"
 DEPTH = 14
 
 
-def simulate(n, seed, sc, tag):
-    r = lib.tlc("SchemaChange", "SchemaChange_sim.cfg", workers=1, timeout=1500, simulate="num=%d" % n, depth=DEPTH + 1, tlc_seed=seed, heap="3g")
+def simulate(n, seed, sc, tag, cfg="SchemaChange_sim.cfg", depth=DEPTH):
+    r = lib.tlc("SchemaChange", cfg, workers=1, timeout=2400, simulate="num=%d" % n, depth=depth + 1, tlc_seed=seed, heap="3g")
     if r.error or r.invariant_violated or r.action_prop_violated:
         raise lib.Inconclusive("SchemaChange simulation: %s\n%s" % (r.error or r.invariant_violated or r.action_prop_violated, r.out[-2500:]))
     trs = r.jsons("TR")
-    if len(trs) < n * DEPTH * 0.8:
+    if len(trs) < n * depth * 0.8:
         raise lib.Inconclusive("SchemaChange simulation emitted only %d steps" % len(trs))
     p = os.path.join(sc, "sim-%s.ndjson" % tag)
     lib.write_ndjson(p, trs)
@@ -125,6 +125,7 @@ def make_witnesses():
 
 
 def model_check(cfg, workers):
+    workers = min(workers, int(os.environ.get("VERIF_MAX_TLC_WORKERS", "64")))      # a shared box: cap by hand
     r = lib.tlc("SchemaChange", cfg, workers=workers, timeout=1500, heap="4g")
     lib.tlc_ok(r, "SchemaChange/" + cfg)
     return r
@@ -136,11 +137,15 @@ def check(tier):
     v = lib.Verdict(PID)
     nsim = 30 if tier == "quick" else 500          # per simulation process (two processes)
     with lib.Scratch() as sc:
-        with cf.ThreadPoolExecutor(max_workers=4) as ex:
+        with cf.ThreadPoolExecutor(max_workers=5) as ex:
             fm = ex.submit(model_check, "SchemaChange_mc.cfg" if tier == "quick" else "SchemaChange_mcbig.cfg", 3 if tier == "quick" else 8)
             # thorough: also every behaviour of three statements from the empty database
             fq = ex.submit(model_check, "SchemaChange_mcseq.cfg", 3) if tier != "quick" else None
             fs = [ex.submit(simulate, nsim, lib.seed() * 2 + k, sc, "s%d" % k) for k in (0, 1)]
+            nbig = 0
+            if tier != "quick":      # longer histories over a wider table (5 columns, 6 rows, 3 index names, depth 24)
+                nbig = 250
+                fs.append(ex.submit(simulate, nbig, lib.seed() * 2 + 7, sc, "big", "SchemaChange_simbig.cfg", 24))
             nw = run_witnesses(binp, sc, v)
             trs, sim_wall = [], 0.0
             for f in fs:
@@ -149,14 +154,14 @@ def check(tier):
                 sim_wall = max(sim_wall, rs.wall)
             path = os.path.join(sc, "sim-all.ndjson")
             lib.write_ndjson(path, trs)
-            rep = replay_file(binp, path)
+            rep = replay_file(binp, path, maxmm=10 ** 6)
             lib.log("[C21] %d behaviours / %d statements replayed (%d comparisons, %d rows), %d disagreements, %.1fs"
                     % (rep["extra"]["behaviours"], rep["cases"], rep["extra"]["comparisons"], rep["extra"]["rows_compared"], len(rep["mismatches"]), time.time() - t0))
             for mm in confirm(binp, rep["mismatches"], sc, "main"):
                 v.add(mm["signature"], detail(mm))
             rm = fm.result()
             rq = fq.result() if fq else None
-        nb = 2 * nsim
+        nb = 2 * nsim + nbig
         # behaviours are cut at their first table-level disagreement: few statements without a reproduced
         # disagreement means the run explored too little (never a verdict)
         if not v.violations and (rep["cases"] < nb * DEPTH * 0.5 or rep["nontrivial"] < nb * DEPTH * 0.1):
@@ -168,7 +173,8 @@ def check(tier):
             "samples": rep["samples"][:3] or [{"sql": t["sql"], "ret": t["ret"]} for t in trs[:3]],
             "evaluations": rep["extra"]["comparisons"],
             "distinct_nontrivial": rep["nontrivial"],
-            "rule": "every statement of %d TLC behaviours of depth %d; after each statement 7 observations + key look-ups compared; non-trivial = a successful schema change (not INSERT / CREATE TABLE) of a table that holds rows" % (nb, DEPTH),
+            "big_behaviours_depth_24": nbig,
+            "rule": "every statement of %d TLC behaviours of depth %d (thorough: some of depth 24); after each statement 7 observations + key look-ups compared; non-trivial = a successful schema change (not INSERT / CREATE TABLE) of a table that holds rows" % (nb, DEPTH),
             "statements_replayed": rep["cases"], "rows_compared": rep["extra"]["rows_compared"],
             "steps_skipped_after_divergence": rep["extra"]["steps_skipped_after_divergence"],
             "by_op": rep["extra"]["by_op"], "disagreements_reproduced": len(rep["mismatches"]), "witness_disagreements": nw,
